@@ -343,7 +343,7 @@ def _fields(projs):
     return tuple(x[2] for x in projs if isinstance(x, (list, tuple)) and x[0] == "f")
 
 
-def _sel(fn, projs, depth, transparent):
+def _sel(fn, projs, depth, transparent, mut_as_phi=False):
     """projection list -> selectors: field names (str) and ('idx', term) / ('cidx', n, from_end) entries"""
     out = []
     for x in projs:
@@ -360,7 +360,7 @@ def _sel(fn, projs, depth, transparent):
     return tuple(out)
 
 
-def expr(fn, o, depth=14, transparent=TRANSPARENT):
+def expr(fn, o, depth=14, transparent=TRANSPARENT, mut_as_phi=False):
     """operand -> term:
          ('const', name|value) | ('arg', n, sel) | ('call', name, (terms...), sel, path) |
          ('bin', op, a, b) | ('un', op, a) | ('agg', what, (terms...), fieldnames) | ('phi', local, sel) |
@@ -389,7 +389,7 @@ def expr(fn, o, depth=14, transparent=TRANSPARENT):
         return ("const", nm.rsplit("::", 1)[-1] if isinstance(nm, str) else nm)
     p = op_place(o)
     l, projs = place_parts(p)
-    fields = _sel(fn, projs, depth, transparent)
+    fields = _sel(fn, projs, depth, transparent, mut_as_phi)
     defs = fn.defs()
     ds = defs.get(l, [])
     if not ds:
@@ -397,6 +397,8 @@ def expr(fn, o, depth=14, transparent=TRANSPARENT):
             return ("arg", l, fields)
         return ("phi", l, fields)
     if len(ds) != 1:
+        return ("phi", l, fields)
+    if mut_as_phi and l in mut_borrowed(fn):
         return ("phi", l, fields)
     d = ds[0]
 
@@ -419,32 +421,32 @@ def expr(fn, o, depth=14, transparent=TRANSPARENT):
         t = d[3]
         name = t["f"].get("name")
         if name in transparent and t["args"]:
-            inner = expr(fn, t["args"][0], depth - 1, transparent)
+            inner = expr(fn, t["args"][0], depth - 1, transparent, mut_as_phi)
             # `?` / unwrap payload projections (.0 of Continue / Some) are not field selections of the inner value
             fs = fields
             if name in ("branch", "unwrap", "expect") and fs[:1] == ("0",):
                 fs = fs[1:]
             return with_fields(inner, fs)
         if name == "next" and len(t["args"]) == 1 and fields[:1] == ("0",):
-            it = expr(fn, t["args"][0], depth - 1, transparent)
+            it = expr(fn, t["args"][0], depth - 1, transparent, mut_as_phi)
             if it[0] == "agg" and it[1] in ("Range", "RangeInclusive") and len(it[2]) >= 2:
                 return with_fields(("iter", it[2][0], it[2][1]) if it[1] == "Range" else ("iter=", it[2][0], it[2][1]), fields[1:])
-        return ("call", name, tuple(expr(fn, a, depth - 1, transparent) for a in t["args"]), fields, t["f"].get("path") or "")
+        return ("call", name, tuple(expr(fn, a, depth - 1, transparent, mut_as_phi) for a in t["args"]), fields, t["f"].get("path") or "")
     if d[2] != "assign":
         return ("rv", d[2])
     r = d[3]["r"]
     k = r["k"]
     if k in ("use", "cast"):
-        return with_fields(expr(fn, r["o"], depth - 1, transparent), fields)
+        return with_fields(expr(fn, r["o"], depth - 1, transparent, mut_as_phi), fields)
     if k == "ref" or k == "addr":
-        return with_fields(expr(fn, {"c": r["p"]}, depth - 1, transparent), fields)
+        return with_fields(expr(fn, {"c": r["p"]}, depth - 1, transparent, mut_as_phi), fields)
     if k == "bin":
-        return with_fields(("bin", r["op"], expr(fn, r["a"], depth - 1, transparent), expr(fn, r["b"], depth - 1, transparent)), fields)
+        return with_fields(("bin", r["op"], expr(fn, r["a"], depth - 1, transparent, mut_as_phi), expr(fn, r["b"], depth - 1, transparent, mut_as_phi)), fields)
     if k == "un":
-        return ("un", r.get("op"), expr(fn, r["o"], depth - 1, transparent))
+        return ("un", r.get("op"), expr(fn, r["o"], depth - 1, transparent, mut_as_phi))
     if k == "agg":
         what = r.get("variant") or r.get("adt") or r.get("ak")
-        t = ("agg", what, tuple(expr(fn, a, depth - 1, transparent) for a in r.get("ops", [])), tuple(r.get("fields") or [str(i) for i in range(len(r.get("ops", [])))]))
+        t = ("agg", what, tuple(expr(fn, a, depth - 1, transparent, mut_as_phi) for a in r.get("ops", [])), tuple(r.get("fields") or [str(i) for i in range(len(r.get("ops", [])))]))
         return with_fields(t, fields)
     return ("rv", k)
 
@@ -532,3 +534,22 @@ def sccs(fn):
         if len(cur) > 1 or any(x in succ[x] for x in cur):
             out.append(cur)
     return out
+
+
+def mut_borrowed(fn):
+    """locals whose own storage is mutably borrowed somewhere (`&mut local`): their value can change without an
+    assignment to the local, so a single assignment is not their only definition"""
+    c = getattr(fn, "_mutb", None)
+    if c is None:
+        c = set()
+        for bi, si, s in fn.stmts():
+            r = s.get("r")
+            if r and r["k"] in ("ref", "raw", "addr") and r.get("mut"):
+                l, projs = place_parts(r["p"])
+                if not projs or all(isinstance(p, (list, tuple)) and p[0] == "f" for p in projs):
+                    c.add(l)
+        try:
+            fn._mutb = c
+        except Exception:
+            pass
+    return c
